@@ -316,6 +316,8 @@ func cmdC14(c *ctx) {
 				}
 				if knob == "badval" && c.chance(0.6) {
 					o.val = []float64{3e9, -3e9, 1.5, -2.5, 4294967296, math.Inf(1), -0.75}[c.rng.Intn(7)]
+				} else if knob == "clean" && c.chance(0.5) {
+					o.val += []float64{0.5, 0.25, 0.75}[c.rng.Intn(3)] * map[bool]float64{true: 1, false: -1}[o.val >= 0] // fractional: truncated
 				}
 			case "u32":
 				o.val = float64(c.rng.Intn(2001))
@@ -324,6 +326,8 @@ func cmdC14(c *ctx) {
 				}
 				if knob == "badval" && c.chance(0.6) {
 					o.val = []float64{-1, 5e9, 2.5, 4294967296, -0.5, 4294967295.5}[c.rng.Intn(6)]
+				} else if knob == "clean" && c.chance(0.5) {
+					o.val += []float64{0.5, 0.25, 0.75}[c.rng.Intn(3)] // fractional: truncated
 				}
 			default:
 				o.val = float64(c.rng.Intn(17) - 8)
